@@ -565,6 +565,9 @@ func OptToLib(o Option) (dns.EDNS0, error) {
 		default:
 			return nil, bad
 		}
+		if e.Family == 1 || e.Family == 2 {
+			libSubnetNoise(e.Address, int(e.SourceNetmask))
+		}
 		return e, nil
 	case 9:
 		switch len(d) {
